@@ -61,10 +61,14 @@ GRAMMARS = [
     # a first token of several characters: after a failed attempt the next start is tried at the very next offset, also inside that token
     ('start: NUM UNIT\nNUM: /[0-9](\\.[0-9])?/\nUNIT: "p"', '1.p', '', 0, 6),
     ('start: STR ":" STR\nSTR: /"[^"]*"/\n%ignore " "', '"a: ', ' ', 0, 6),
+    # keywords folded into an IGNORED regexp terminal: they are still terminals a match can start with
+    # (basic lexer only: under the contextual lexer "b"/"e" are ignored text wherever the parser does not expect the keyword, and the
+    #  reference's character-set notion of 'ends inside ignored text' does not apply)
+    ('start: "b" NUM "e"\nNUM: /[0-9]/\n%ignore /[bex]/', 'be1x', 'x', 0, None, ('basic',)),
 ]
 L = 5 if tier == 'quick' else 7
-for g, alpha, ign, gflags, ownL in GRAMMARS:
-    for lexer in ('basic', 'contextual'):
+for g, alpha, ign, gflags, ownL, *only_lexers in GRAMMARS:
+    for lexer in (only_lexers[0] if only_lexers else ('basic', 'contextual')):
         p = Lark(g, parser='lalr', lexer=lexer, propagate_positions=True, g_regex_flags=gflags)
         for n in range(0, (ownL or L) + 1):
             for chars in itertools.product(sorted(set(alpha)), repeat=n):
